@@ -492,6 +492,11 @@ struct arena_policy
             T().fail("M-counters", "failed-alloc-changed-state", "a failed allocate_block() changed the arena");
         if (before.cached)
             T().fail("M-upstream", "cache-not-reused", "allocate_block() failed although the arena had a cached block");
+        // the block source owes the block it announced: an acquisition that obtained nothing leaves the (growing) block size alone,
+        // otherwise the retry asks the upstream for a different block than the one that was refused
+        if (o.next_block_size() != before.next)
+            T().fail("M-upstream", "failed-acquisition-changed-block-size",
+                     fmt("next_block_size() went from %zu to %zu across an allocate_block() that obtained nothing", before.next, o.next_block_size()));
         (void)w;
     }
     template <class W>
